@@ -161,6 +161,22 @@ pub fn check_bytes(ctx: &mut Ctx, family: &str, idx: u64, input: &[u8], built_tw
                     reorder_variants += 1;
                 }
             }
+            // OPT data that differs in one scalar (payload sizes a receiver may treat alike, versions): equal or not, hashing agrees
+            if let simple_dns::rdata::RData::OPT(o) = &r.rdata {
+                for udp in [0u16, 1, 255, 256, 511, 512, 513, 1232, 4096, 65535] {
+                    for dv in [0u8, 1] {
+                        let mut v = o.clone();
+                        v.udp_packet_size = udp;
+                        v.version = o.version.wrapping_add(dv);
+                        if v == *o && h(&v) != h(o) { problems.push("eq-but-hash-differs:OPT:scalar-variant".into()); }
+                        let rv = simple_dns::rdata::RData::OPT(v);
+                        if rv == r.rdata && h(&rv) != h(&r.rdata) { problems.push("eq-but-hash-differs:rdata:OPT-scalar-variant".into()); }
+                        let mut rec = (*r).clone();
+                        rec.rdata = rv;
+                        if rec == **r && h(&rec) != h(*r) { problems.push("eq-but-hash-differs:record:OPT-scalar-variant".into()); }
+                    }
+                }
+            }
             if let simple_dns::rdata::RData::HINFO(x) = &r.rdata {
                 let fl: Vec<u8> = x.cpu.verif_bytes().iter().map(|c| if c.is_ascii_lowercase() { c.to_ascii_uppercase() } else { c.to_ascii_lowercase() }).collect();
                 if let Ok(cs) = simple_dns::CharacterString::new(&fl) {
